@@ -830,7 +830,10 @@ func (m *Machine) recv(ch *ChanV, commaOk bool, t types.Type) Value {
 	case ch.C.Closed || (ch.C.Kind == "ctxdone" && ch.C.Ctx.Cancelled):
 		v = Zero(et)
 		ok = smt.False
-	case ch.C.Kind == "ticker" || ch.C.Kind == "timer" || (ch.C.Kind == "ctxdone" && ch.C.Ctx.HasDL):
+	case ch.C.Kind == "ctxdone" && ch.C.Ctx.HasDL && m.deadlineExpired():
+		v = Zero(et)
+		ok = smt.False
+	case ch.C.Kind == "ticker" || ch.C.Kind == "timer" || (ch.C.Kind == "ctxdone" && ch.C.Ctx.HasDL && !m.deadlineControlled()):
 		v = m.FreshValue(et, "chanrecv", 1)
 	default:
 		m.end("blocked", "receive on channel that nothing on this path makes ready")
@@ -857,7 +860,9 @@ func (m *Machine) selectOp(fr *frame, ins *ssa.Select) Value {
 		if len(c.Buf) > 0 || c.Closed || (c.Kind == "ctxdone" && c.Ctx.Cancelled) {
 			definitely = true
 			ready = append(ready, i)
-		} else if c.Kind == "ticker" || c.Kind == "timer" || (c.Kind == "ctxdone" && c.Ctx.HasDL) {
+		} else if c.Kind == "ticker" || c.Kind == "timer" {
+			ready = append(ready, i)
+		} else if c.Kind == "ctxdone" && c.Ctx.HasDL && (!m.deadlineControlled() || m.deadlineExpired()) {
 			ready = append(ready, i)
 		}
 	}
@@ -2013,3 +2018,9 @@ func (m *Machine) LockOrderCycle() bool {
 	}
 	return false
 }
+
+// Deadline control: by default a context with a deadline may expire at any moment.  A harness can take
+// control (zzverif.DeadlineControl) so that deadlines expire exactly when one of its stubs says that
+// time has passed (zzverif.ExpireDeadlines); natively the stub really sleeps past the deadline.
+func (m *Machine) deadlineControlled() bool { b, _ := m.ghost["deadline.controlled"].(bool); return b }
+func (m *Machine) deadlineExpired() bool    { b, _ := m.ghost["deadline.expired"].(bool); return b }
